@@ -101,7 +101,7 @@ def script_sets_2():
         ("project-len/nows", NOWS, [[["len"]], [["project"], ["len"]]]),
         ("init2-init2/empty", EMPTY, [[i1, i2], [i2, i1]]),
         ("set-len-get/populated", pop((J1, {"k": 0})), [[["set", J1, "k", 5], ["len"]], [["get", J1], i2]]),
-        # whole-document assignment (oracle only: not an operation of the Lean model)
+        # whole-document assignment: ONE write (Op.docAssign of the model; reads_see_boundaries)
         ("assign-get/populated", pop((J1, {"k": 0, "z": "old"})), [[["assign", J1, {"k": 1, "n": {"q": [1]}}]], [["get", J1], ["get", J1]]]),
         ("assign-get/empty", EMPTY, [[["assign", J1, {"k": 1}]], [["get", J1]]]),
         # outside the property's domain (two writers of ONE document, updates can be lost): only the
@@ -374,6 +374,8 @@ def case_wire(case, schedule):
                 ts += [op[0], enc_val(op[1])]
             elif op[0] == "set":
                 ts += ["set", enc_val(op[1]), "S" + op[2].encode().hex(), enc_val(op[3])]
+            elif op[0] == "assign":
+                ts += ["assign", enc_val(op[1]), enc_val(op[2])]
             else:
                 ts += [op[0]]
     ts += ["sched", str(len(schedule))] + [str(a) for a in schedule]
@@ -627,11 +629,10 @@ def one_run(case, base, chooser, tags):
 
 def judge(case, res, trace, d, out, label):
     schedule = [t[0] for t in trace]
-    if not any(op[0] == "assign" for ops in case["scripts"] for op in ops):   # `assign` is not an op of the Lean model
-        line = case_wire(case, schedule)
-        out["model"] += ["trace " + line, "final " + line, "exits " + line]
-        out["impl"] += [";".join(step_str(t) for t in trace), ";".join(tree_lines(d)),
-                        ";".join(exit_str(res.exits.get(a, {"status": "missing"})) for a in range(len(case["scripts"])))]
+    line = case_wire(case, schedule)
+    out["model"] += ["trace " + line, "final " + line, "exits " + line]
+    out["impl"] += [";".join(step_str(t) for t in trace), ";".join(tree_lines(d)),
+                    ";".join(exit_str(res.exits.get(a, {"status": "missing"})) for a in range(len(case["scripts"])))]
     fails = oracle(case, d, res, trace, label + " schedule=" + json.dumps(schedule, separators=(",", ":")))
     out["oracle"] += fails
     if fails and "failing_schedule" not in out:
@@ -780,7 +781,12 @@ LEVEL_TEXT = (
     "actor ever fails (no_actor_fails: mkdir races, save-if-absent and the validating re-load of init all succeed), "
     "no read ever returns torn content (no_torn_read, published_files_valid), temp files are private (tmp_private), "
     "published files and directories are never removed (published_monotone), a completed write is seen by every "
-    "later read until another save of the same file completes (write_visible).  For completed runs from a valid "
+    "later read until another save of the same file completes (write_visible); the alphabet includes the whole-document "
+    "assignment `job.doc = mapping` (Op.docAssign: lazy init, then ONE temp-file + rename write, no load), and every "
+    "value any actor ever reads from a single-writer document - the reads of doc() as well as the internal loads of "
+    "doc[k] = x - is an OPERATION BOUNDARY value of that writer: the initial document or the document after its first n "
+    "completed writes (reads_see_boundaries, published_is_boundary, read_returns_boundary): no reader sees an "
+    "in-between state such as an emptied document.  For completed runs from a valid "
     "workspace: no temp file is left (final_no_tmp), every job directory holds a valid state point file, i.e. "
     "check() passes (final_check_passes), the job set is exactly the requested one and every single-writer document "
     "is the initial document with the writer's assignments applied in program order (final_closed_form), the "
